@@ -76,6 +76,32 @@ def h_notif_generic(ctx, flags, enc):
     return _ack_obs(bottom.down, nid, ntype, nfrom, participant)
 
 
+def h_contacts_malformed(ctx, flags, enc):
+    """a contacts notification the contacts layer cannot present (no `after`, a non-numeric one, no `t`): whatever the presentation
+    does -- it raises on the clean tree --, the stanza is acknowledged exactly once"""
+    st, bottom, app, mgr = _stack(flags, enc)
+    N = SC.N()
+    nid, nfrom = H.zstr(ctx, "id"), H.zstr(ctx, "from")
+    shape = ctx.choice("shape", ["sync without after", "sync with a non-numeric after", "no t attribute", "update without jid"])
+    attrs = {"id": nid, "from": nfrom, "type": "contacts", "t": "1400000000"}
+    if shape == "no t attribute":
+        del attrs["t"]
+        kids = [N("sync", {"after": "1400000000"})]
+    elif shape == "sync without after":
+        kids = [N("sync", {})]
+    elif shape == "sync with a non-numeric after":
+        kids = [N("sync", {"after": "soon"})]
+    else:
+        kids = [N("update", {})]
+    raised = None
+    try:
+        bottom.inject(N("notification", attrs, kids))
+    except Exception as e:
+        raised = type(e).__name__
+    ctx.note("presentation raised: %s" % raised)
+    return _ack_obs(bottom.down, nid, "contacts", nfrom, None)
+
+
 def _doc_notifications():
     """documented notification shapes: name -> node"""
     from checks import c09, c09_templates as T
@@ -269,6 +295,7 @@ def cases(tier):
         for enc in encs:
             tag = "%s,%s" % (fl, "enc" if enc else "noenc")
             cs.append(dict(name="notif-any-type[%s]" % tag, fn=h_notif_generic, args=(fl, enc)))
+            cs.append(dict(name="notif-contacts-unpresentable[%s]" % tag, fn=h_contacts_malformed, args=(fl, enc)))
             for w in NOTIFS:
                 cs.append(dict(name="notif[%s,%s]" % (w, tag), fn=h_notif_doc, args=(w, fl, enc)))
             for k in ("offer", "transport", "relaylatency", "reject", "terminate", "bare"):
